@@ -124,6 +124,13 @@ pub fn x_is_tkey(v: &[u8]) -> bool
     v.len() == 2 && x_alpha(v[0]) && x_digit(v[1])
 }
 
+pub fn x_lang_shaped(v: &[u8]) -> bool
+//@ ensures r == lang_shaped(v@),
+{
+    let n = v.len();
+    n >= 2 && n <= 8 && x_all_alpha(v)
+}
+
 pub fn x_is_private(v: &[u8]) -> bool
 //@ ensures r == is_private(v@),
 {
